@@ -10,7 +10,7 @@ from pdfminer.pdfdocument import (
 )
 from pdfminer.pdfexceptions import PDFObjectNotFound, PDFValueError
 from pdfminer.pdfparser import PDFParser
-from pdfminer.pdftypes import dict_value, int_value, list_value, resolve1
+from pdfminer.pdftypes import PDFObjRef, dict_value, int_value, list_value, resolve1
 from pdfminer.psparser import LIT
 from pdfminer.utils import Rect, parse_rect
 
@@ -91,11 +91,16 @@ class PDFPage:
             if isinstance(obj, int):
                 object_id = obj
                 object_properties = dict_value(document.getobj(object_id)).copy()
-            else:
-                # This looks broken. obj.objid means obj could be either
-                # PDFObjRef or PDFStream, but neither is valid for dict_value.
-                object_id = obj.objid  # type: ignore[attr-defined]
+            elif isinstance(obj, PDFObjRef):
+                object_id = obj.objid
                 object_properties = dict_value(obj).copy()
+            else:
+                # Page tree nodes must be indirect objects; anything else
+                # (a direct dictionary, a number, null, ...) is not a node.
+                if settings.STRICT:
+                    raise PDFValueError(f"Page tree node is not a reference: {obj!r}")
+                log.warning("Ignoring page tree node that is not a reference: %r", obj)
+                return
 
             # Avoid recursion errors by keeping track of visited nodes
             if visited is None:
@@ -192,7 +197,7 @@ class PDFPage:
 
         try:
             return self._normalize_rect(
-                parse_rect(resolve1(val) for val in resolve1(value))
+                parse_rect(resolve1(val) for val in list_value(value))
             )
 
         except PDFValueError:
@@ -206,7 +211,7 @@ class PDFPage:
 
         try:
             return self._normalize_rect(
-                parse_rect(resolve1(val) for val in resolve1(value))
+                parse_rect(resolve1(val) for val in list_value(value))
             )
 
         except PDFValueError:
